@@ -13,6 +13,7 @@ import (
 	"go/types"
 	"math"
 	"math/big"
+	"math/bits"
 	"os"
 	"regexp"
 	"sort"
@@ -1238,8 +1239,15 @@ func foldBinOp(op token.Token, a, b fval, t types.Type) fval {
 			return top
 		}
 		return fval{k: constant.MakeBool(constant.Compare(a.k, op, b.k)), t: t}
-	case token.ADD, token.SUB, token.MUL, token.AND, token.OR, token.XOR:
+	case token.ADD, token.SUB, token.MUL, token.AND, token.OR, token.XOR, token.AND_NOT:
 		return fval{k: wrapToType(constant.BinaryOp(a.k, op, b.k), t), t: t}
+	case token.SHL, token.SHR:
+		if a.k.Kind() == constant.Int && b.k.Kind() == constant.Int {
+			if n, exact := constant.Uint64Val(b.k); exact && n < 64 {
+				return fval{k: wrapToType(constant.Shift(a.k, op, uint(n)), t), t: t}
+			}
+		}
+		return top
 	case token.QUO:
 		if a.k.Kind() == constant.Int && b.k.Kind() == constant.Int {
 			if constant.Sign(b.k) == 0 {
@@ -1453,6 +1461,30 @@ func libTransfer(fn *ssa.Function, args []fval) (fval, error) {
 			if a, b, ok := twoStrings(args[:2]); ok {
 				n, _ := constant.Int64Val(args[2].k)
 				return strList(strings.SplitN(a, b, int(n))), nil
+			}
+		}
+	case "math/bits.OnesCount", "math/bits.OnesCount8", "math/bits.OnesCount16", "math/bits.OnesCount32", "math/bits.OnesCount64", "math/bits.Len", "math/bits.Len8", "math/bits.Len16", "math/bits.Len32", "math/bits.Len64", "math/bits.TrailingZeros", "math/bits.TrailingZeros8", "math/bits.TrailingZeros16", "math/bits.TrailingZeros32", "math/bits.TrailingZeros64":
+		if len(args) == 1 && args[0].k != nil && args[0].k.Kind() == constant.Int {
+			if u, exact := constant.Uint64Val(args[0].k); exact {
+				width := 64
+				for _, w := range []int{8, 16, 32} {
+					if strings.HasSuffix(name, fmt.Sprint(w)) {
+						width = w
+					}
+				}
+				r := 0
+				switch {
+				case strings.Contains(name, "OnesCount"):
+					r = bits.OnesCount64(u)
+				case strings.Contains(name, "Len"):
+					r = bits.Len64(u)
+				default:
+					r = bits.TrailingZeros64(u)
+					if u == 0 {
+						r = width
+					}
+				}
+				return fval{k: constant.MakeInt64(int64(r)), t: types.Typ[types.Int]}, nil
 			}
 		}
 	case "strings.Compare":
